@@ -7,10 +7,12 @@ INTS = ["0", "1", "-1", "2", "-2", "3", "7", "-7", "10", "100", "32767", "-32768
         "-46341", "65536", "641", "6700417", "16777216", "16777217", "-16777217", "2147483646", "2147483647", "-2147483647", "-2147483648"]
 RATS = ["1/2", "-1/2", "1/3", "2/3", "-2/3", "3/2", "-7/3", "22/7", "1/32767", "32767/32768", "1/65536",
         "65537/65536", "2147483647/2", "1/2147483647", "-2147483648/3", "1/641", "1/6700417", "4/2", "6/4", "0/5",
-        "16666667/50000000", "(/ 1 -2)", "(+ 1/2 1/2)", "(/ 6 4)", "(- 1/2 1/2)", "(* 2/3 3/2)", "(/ -3 -6)"]
+        "16666667/50000000", "7/13", "31/7", "-13/11", "15/19", "(/ 1 -2)", "(+ 1/2 1/2)", "(/ 6 4)", "(- 1/2 1/2)", "(* 2/3 3/2)", "(/ -3 -6)"]
 REALS = ["0.0", "-0.0", "1.0", "-1.0", "0.5", "1.5", "-1.5", "2.5", "-2.5", "0.1", "1e10", "1e-10", "3.4e38", "1e39",
          "-1e39", "(/ 0. 0.)", "16777216.0", "-16777216.0", "0.25", "0.33333334", "16777217.0", "2147483648.0", "-2147483648.0", "2147483520.0",
-         "-2147483904.0", "1e-45", "3.5", "-3.5", "1e2"]
+         "-2147483904.0", "1e-45", "3.5", "-3.5", "1e2",
+         # the binary32 quotients of fractions of the grid: equal to those fractions once they are converted
+         "(/ 7. 13)", "(/ 31. 7)", "(/ -13. 11)", "(/ 15. 19)"]
 OPERANDS = INTS + RATS + REALS
 SMALL = ["0", "1", "-1", "2", "-7", "32768", "2147483647", "-2147483648", "1/2", "-1/2", "2/3", "(/ 1 -2)", "(+ 1/2 1/2)",
          "22/7", "0.0", "-0.0", "1.5", "-2.5", "(/ 0. 0.)", "1e39"]
@@ -226,7 +228,7 @@ def check_arith_oracle(op, operand_canon, result):
 def f32_of(canon):
     """a canonical operand as the binary32 value a mixed comparison uses: a real is itself; an exact INTEGER is converted by
     one correctly rounded int->binary32 conversion (python: int -> double is exact below 2^53, double -> binary32 rounds once).
-    None for ratios (their conversion is a/b with three roundings, not predicted here) and non-numbers."""
+    None for non-numbers."""
     import struct
     if canon.startswith("r:"):
         if canon == "r:nan":
@@ -234,6 +236,10 @@ def f32_of(canon):
         return struct.unpack(">f", int(canon[2:]).to_bytes(4, "big"))[0]
     if canon.startswith("i:"):
         return struct.unpack(">f", struct.pack(">f", float(int(canon[2:]))))[0]
+    if canon.startswith("q:"):
+        # a ratio is converted as binary32(numerator) / binary32(denominator), the quotient rounded to binary32
+        fr = exact_of(canon)
+        return _to_f32(fr) if fr is not None else None
     return None
 
 
